@@ -616,8 +616,15 @@ func reifyDoArray(
 ) (reflect.Value, Error) {
 	aLen := len(arr)
 	tLen := to.Len()
+
+	// every element is evaluated in a scope of its own (as the entries of a
+	// map are): sibling elements may reference the same setting
+	parentFields := opts.opts.activeFields
+	defer func() { opts.opts.activeFields = parentFields }()
+
 	for idx := 0; idx < tLen; idx++ {
 		if idx >= start && idx < start+aLen {
+			opts.opts.activeFields = newFieldSet(parentFields)
 			v, err := reifyMergeValue(opts, to.Index(idx), arr[idx-start])
 			if err != nil {
 				return reflect.Value{}, err
